@@ -222,10 +222,20 @@ func (tfs *tagFamilyFilters) Eq(tagName string, tagValue string) bool {
 				// No filter available, conservatively return true (don't skip)
 				return true
 			}
-			return tf.filter.MightContain([]byte(tagValue))
+			return mightContain(tf.filter, []byte(tagValue))
 		}
 	}
 	return true
+}
+
+// mightContain reports whether item may be a value, or an element of an array value, of the block.
+// A dictionary of array values stores whole arrays: its MightContain knows no elements,
+// ContainsAll looks inside them.
+func mightContain(f Filter, item []byte) bool {
+	if df, ok := f.(*filter.DictionaryFilter); ok {
+		return df.ContainsAll([][]byte{item})
+	}
+	return f.MightContain(item)
 }
 
 func (tfs *tagFamilyFilters) Range(tagName string, rangeOpts index.RangeOpts) (bool, error) {
@@ -263,7 +273,7 @@ func (tfs *tagFamilyFilters) Having(tagName string, tagValues []string) bool {
 		if tf, ok := (*tff)[tagName]; ok {
 			if tf.filter != nil {
 				for _, tagValue := range tagValues {
-					if tf.filter.MightContain([]byte(tagValue)) {
+					if mightContain(tf.filter, []byte(tagValue)) {
 						return true // Return true as soon as we find a potential match
 					}
 				}
